@@ -177,16 +177,56 @@ def r2(ctx, lib):
 def r34(ctx, lib):
     mc = ctx.need_body('C05.R3', 'dedupe::FsCommand::move_copy')
     if mc is not None:
+        from ..analysis import result_tests, reachable_state
         calls = ordered_chain(ctx, 'C05.R3', mc, [('check_can_rename', r'FsCommand::check_can_rename$'), ('mkdirs', r'FsCommand::mkdirs$'),
-                                                   ('unsafe_copy', r'FsCommand::unsafe_copy$|^std::fs::copy$'), ('remove', r'FsCommand::remove$|^std::fs::remove_file$')], mc.path)
+                                                   ('unsafe_copy', r'FsCommand::unsafe_copy$|^std::fs::copy$')], mc.path, last_may_be_matched=True) if 'last_may_be_matched' in ordered_chain.__code__.co_varnames else None
+        if calls is None:
+            chain = []
+            for label, rx in (('check_can_rename', r'FsCommand::check_can_rename$'), ('mkdirs', r'FsCommand::mkdirs$'), ('unsafe_copy', r'FsCommand::unsafe_copy$|^std::fs::copy$')):
+                cs = mc.calls(rx)
+                if not cs:
+                    ctx.missing('C05.R3', '%s in %s' % (label, mc.path), mc.where())
+                    chain = None
+                    break
+                chain.append(cs[0])
+            calls = chain
+            if calls:
+                # each step only after the previous one succeeded; the failures of the first two are propagated
+                prev = None
+                for label, c in zip(('check_can_rename', 'mkdirs', 'unsafe_copy'), calls):
+                    if prev is not None:
+                        pt_ = result_tests(mc, prev)
+                        ctx.check(bool(pt_) and c.bb not in reachable_state(mc, 0, pt_, 'err'), 'C05.R3', mc.path + '|' + label + '-after-previous', c.where(), '%s runs only after the previous step succeeded' % label,
+                                  '%s can run although the previous step failed' % label)
+                    cat, det = err_handling(mc, c)
+                    ctx.check(cat in ('PROPAGATED', 'RETURNED', 'ERR-RETURNED'), 'C05.R3', mc.path + '|' + label, c.where(), '%s: error returned' % label, '%s: result not propagated (%s %s)' % (label, cat, det))
+                    prev = c
         if calls:
-            chk, mk, cp, rm = calls
+            chk, mk, cp = calls
             ok = 1 in backslice(mc, [cp.args[0]]).params and 2 in backslice(mc, [cp.args[1]]).params and 2 not in backslice(mc, [cp.args[0]]).params
             ctx.check(ok, 'C05.R3', mc.path + '|copy-direction', cp.where(), 'copy(source -> target)', 'copy operands are not (source, target)')
-            sl = backslice(mc, [rm.args[0]])
-            ctx.check(sl.params == {1}, 'C05.R3', mc.path + '|remove-source', rm.where(), 'remove(source) only', 'remove is applied to %s' % sl.describe(mc))
-            n_rm = len(mc.calls(r'FsCommand::remove$|^std::fs::remove_file$'))
-            ctx.check(n_rm == 1, 'C05.R3', mc.path + '|single-remove', rm.where(), 'exactly one remove', '%d remove calls' % n_rm)
+            ct = result_tests(mc, cp)
+            err_region = reachable_state(mc, 0, ct, 'err') if ct else set()
+            ok_region = reachable_state(mc, 0, ct, 'ok') if ct else set()
+            rms = mc.calls(r'FsCommand::remove$|^std::fs::remove_file$')
+            src_rm = [r for r in rms if backslice(mc, [r.args[0]]).params == {1}]
+            tgt_rm = [r for r in rms if backslice(mc, [r.args[0]]).params == {2}]
+            other = [r for r in rms if r not in src_rm and r not in tgt_rm]
+            ctx.check(len(src_rm) == 1 and not other, 'C05.R3', mc.path + '|single-remove', (rms[0].where() if rms else mc.where()), 'exactly one remove of the source (plus %d clean-up remove(s) of the target)' % len(tgt_rm),
+                      '%d removes of the source, %d of something else' % (len(src_rm), len(other)))
+            if src_rm:
+                rm = src_rm[0]
+                ctx.check(bool(ct) and rm.bb not in err_region and rm.bb in ok_region, 'C05.R3', mc.path + '|remove-source', rm.where(), 'remove(source) only after the copy succeeded',
+                          'the source can be removed although the copy failed')
+                cat, det = err_handling(mc, rm)
+                ctx.check(cat in ('PROPAGATED', 'RETURNED', 'ERR-RETURNED'), 'C05.R3', mc.path + '|remove', rm.where(), 'remove: error returned', 'remove: result not propagated (%s %s)' % (cat, det))
+            for r in tgt_rm:
+                # removing the target is legitimate only as the clean-up of a failed copy, and the failure is still returned
+                from ..analysis import return_variants_state
+                only_err = r.bb in err_region and r.bb not in ok_region
+                rv = return_variants_state(mc, r.bb, ct, 'err') if ct else set()
+                ctx.check(only_err and 'Ok' not in rv, 'C05.R3', mc.path + '|target-cleanup', r.where(), 'the target is removed only after the copy failed, and the error is returned',
+                          'the target of the move can be removed %s' % ('on the success path of the copy' if not only_err else 'and the failure is then reported as success'))
             sl = backslice(mc, [mk.args[0]])
             ctx.check(2 in sl.params and 1 not in sl.params, 'C05.R3', mc.path + '|mkdirs-target', mk.where(), 'mkdirs(target.parent())', 'mkdirs not applied to the target\'s parent')
     mr = ctx.need_body('C05.R4', 'dedupe::FsCommand::move_rename')
@@ -342,6 +382,7 @@ EXCEPTIONS_R7 = {
     ('dedupe::FsCommand::check_can_rename', r'symlink_metadata$'): 'existence probe: `is_ok()` of the lstat *is* the answer (any failure = nothing there to overwrite; the following rename/copy reports real errors)',
     ('dedupe::FsCommand::maybe_lock', r'FileLock::new$'): 'only ErrorKind::Unsupported is turned into Ok(None), every other error is returned (decided by C20.R2)',
     ('dedupe::FsCommand::execute', r'FsCommand::move_rename$'): 'documented fall-back: a failed rename falls through to move_copy, which reports its own error',
+    ('dedupe::FsCommand::move_copy', r'^std::fs::remove_file$'): 'clean-up of the incomplete copy after unsafe_copy failed; the copy error itself is returned (decided by C05.R3 target-cleanup)',
 }
 
 
